@@ -24,7 +24,8 @@ class C16(BaseCheck):
   REQUIRED_ANCHORS = ANCHORS
   REQUIRED_CLASSES = ('singleton', 'refcount', 'shared', 'concurrent-first-requests', 'replaced-after-failure',
                       'surplus-close', 'reopen-after-last-close', 'same-key', 'different-key',
-                      'underlying-closed-while-held', 'underlying-state-changes')
+                      'underlying-closed-while-held', 'underlying-state-changes',
+                      'requester-abandoned-while-opening')
   QUICK_CASES = 1500
   THOROUGH_CASES = 120000
   QUICK_WALL = 180
@@ -167,7 +168,7 @@ class C16(BaseCheck):
       msg = MethodCallMessage(None, 'm', (r['id'],), {})
       stack = ClientMessageSinkStack()
       stack.Push(term, r)
-      gevent.spawn(pool.AsyncProcessRequest, stack, msg, None, {})
+      r['g'] = gevent.spawn(pool.AsyncProcessRequest, stack, msg, None, {})
       return r
 
     use_pool_open = rng.random() < 0.5
@@ -175,6 +176,20 @@ class C16(BaseCheck):
       pool.Open()
     nops = rng.choice([10, 30, 60, 120])
     first_burst = rng.choice([1, 2, 5])
+
+    def abandon_first_requester():
+      # the caller of the request that makes the pool create its connection gives up (its greenlet
+      # is killed) while the connection is still opening: the pool still has that one connection,
+      # the next request shares it, closing the pool closes it
+      r_ = issue()
+      gevent.sleep(0)
+      opening = [c for c in conns if c._state == IDLE and c.open_ar is not None and not c.open_ar.ready()]
+      if not r_['g'].dead and opening and not r_['deliveries']:
+        classes.add('requester-abandoned-while-opening')
+        r_['g'].kill(block=False)
+        gevent.sleep(0)
+    if open_delay and not use_pool_open and rng.random() < 0.3:
+      abandon_first_requester()
     burst = [issue() for _ in range(first_burst)]    # concurrent first requests
     if first_burst > 1:
       classes.add('concurrent-first-requests')
@@ -213,6 +228,10 @@ class C16(BaseCheck):
           inv()
           if c_._state == BUSY:
             c_._state = OPEN
+      elif k < 0.78 and open_delay and not live():
+        abandon_first_requester()
+        if rng.random() < 0.6:
+          issue()
       elif k < 0.8:
         lv = [c for c in conns if not c.failed and c._state != CLOSED]
         if lv:
